@@ -2,6 +2,7 @@
 
 #![allow(clippy::type_complexity, clippy::too_many_arguments)]
 
+pub mod drivers;
 pub mod engine;
 pub mod r#gen;
 pub mod io_adv;
